@@ -160,7 +160,9 @@ pub fn run(out: &mut Out, thorough: bool, seed: u64, _extra: &[String]) {
         { let mut c = c1.clone(); c.set_parms_id(*s.ctx.key_parms_id()); bad.push(("key-level-parms-id".into(), c)); }
         if scheme == SchemeType::CKKS { let mut c = c1.clone(); c.set_scale(0.0); bad.push(("scale=0".into(), c)); let mut c = c1.clone(); c.set_correction_factor(2); bad.push(("cf!=1".into(), c)); }
         else { let mut c = c1.clone(); c.set_scale(2.0); bad.push(("scale!=1".into(), c)); }
-        if scheme == SchemeType::BGV { let mut c = c1.clone(); c.set_correction_factor(0); bad.push(("cf=0".into(), c)); let mut c = c1.clone(); c.set_correction_factor(t + 1); bad.push(("cf>t".into(), c)); }
+        if scheme == SchemeType::BGV { let mut c = c1.clone(); c.set_correction_factor(0); bad.push(("cf=0".into(), c)); let mut c = c1.clone(); c.set_correction_factor(t + 1); bad.push(("cf>t".into(), c));
+            // the boundary: a factor EQUAL to t is ≡ 0 mod t, a non-unit; valid range is 1 ≤ cf ≤ t − 1
+            let mut c = c1.clone(); c.set_correction_factor(t); bad.push(("cf=t".into(), c)); }
         if scheme == SchemeType::BFV { let mut c = c1.clone(); c.set_correction_factor(3); bad.push(("cf!=1".into(), c)); }
         { let mut c = c1.clone(); c.data_mut().pop(); bad.push(("buffer-short".into(), c)); }
         for (what, b) in &bad {
